@@ -15,6 +15,9 @@ type Lexer struct {
 	inside       bool
 	curLine      int
 	verif        verifState
+
+	commentPos  int // offset of the body of the last comment tag opened
+	commentLine int // line number at that offset
 }
 
 // New Lexer from the input string
@@ -129,6 +132,7 @@ func (l *Lexer) nextInsideToken() token.Token {
 			case '#':
 				l.readChar()
 				tok = token.Token{Type: token.C_START, Literal: "<%#", LineNumber: l.curLine}
+				l.commentPos, l.commentLine = l.readPosition, l.curLine
 			case '=':
 				l.readChar()
 				tok = token.Token{Type: token.E_START, Literal: "<%=", LineNumber: l.curLine}
@@ -219,6 +223,28 @@ func (l *Lexer) nextInsideToken() token.Token {
 	l.readChar()
 	tok.LineNumber = l.curLine
 	return tok
+}
+
+// SkipComment discards the text of the comment tag opened by the most recent
+// C_START token, whatever it contains, and returns the E_END token closing it
+// (or EOF when the comment is not terminated). A comment is not code, so
+// quotes, backticks and '#' inside it must not be tokenized.
+func (l *Lexer) SkipComment() token.Token {
+	l.readPosition, l.curLine = l.commentPos, l.commentLine
+	l.readChar()
+
+	for l.ch != 0 && !(l.ch == '%' && l.peekChar() == '>') {
+		l.readChar()
+	}
+
+	if l.ch == 0 {
+		return token.Token{Type: token.EOF, LineNumber: l.curLine}
+	}
+
+	l.inside = false
+	l.readChar()
+	l.readChar()
+	return token.Token{Type: token.E_END, Literal: "%>", LineNumber: l.curLine}
 }
 
 func (l *Lexer) skipWhitespace() {
